@@ -711,3 +711,101 @@ def suffix_all_items_family():
                     for _ in range(nv):
                         w.ch('3'); w.eol()
                     yield mode, bytes(w.out), 'suffix-all-items'
+
+
+def error_class_family(T):
+    """one minimal trigger per error class of the reader (text and, where the construct exists, both binary
+    forms), so that every `ReportError` site is executed and compared on every run whatever the seed.
+    yields (mode, bytes, tag)"""
+    S = T.single
+    def build(mode, hdr_kw, body):
+        binary, big = mode != 'text', mode == 'binswap'
+        w = _plain_writer(binary, big)
+        w.raw(_header(binary, big, **hdr_kw))
+        body(w)
+        return bytes(w.out)
+    base = dict(nv=3, nc=2, no=1, nl=1, nf=1, ce=[1, 0, 0, 0, 0])
+    def C(w): w.ch('C'); w.uint(0); w.eol()
+    def Lg(w): w.ch('L'); w.uint(0); w.eol()
+    def op(w, o): w.ch('o'); w.uint(o); w.eol()
+    def num(w, v=1.5): w.ch('n'); w.dbl(v); w.eol()
+    def bseg(w):
+        w.ch('b'); w.eol()
+        for _ in range(3):
+            w.ch('3'); w.eol()
+    bodies = {
+        'oob': lambda w: (w.ch('C'), w.uint(9), w.eol()),
+        'fewargs': lambda w: (C(w), op(w, S['SUM'][0]), w.uint(2), w.eol()),
+        'ref': lambda w: (C(w), op(w, S['PLTERM'][0]), w.uint(2), w.eol(), num(w), num(w), num(w), num(w)),
+        'opcode': lambda w: (C(w), op(w, 99)),
+        'const': lambda w: (C(w), op(w, S['PLTERM'][0]), w.uint(2), w.eol(), w.ch('x')),
+        'expr': lambda w: (C(w), w.ch('z')),
+        'numop': lambda w: (C(w), op(w, 81)),
+        'numop2': lambda w: (C(w), op(w, T.rel[0])),
+        'slopes': lambda w: (C(w), op(w, S['PLTERM'][0]), w.uint(1), w.eol()),
+        'logical': lambda w: (Lg(w), w.ch('v')),
+        'logop': lambda w: (Lg(w), op(w, T.binary[0])),
+        'count': lambda w: (Lg(w), op(w, T.lcount[0]), num(w), num(w)),
+        'count2': lambda w: (Lg(w), op(w, T.lcount[0]), num(w), op(w, S['SUM'][0])),
+        'complvar': lambda w: (w.ch('b'), w.eol(), w.ch('5'), w.int32(1), w.uint(1), w.eol()),
+        'complidx0': lambda w: (w.ch('r'), w.eol(), w.ch('5'), w.int32(1), w.uint(0), w.eol()),
+        'complidxbig': lambda w: (w.ch('r'), w.eol(), w.ch('5'), w.int32(-1), w.uint(4), w.eol()),
+        'complok': lambda w: (w.ch('r'), w.eol(), w.ch('5'), w.int32(3), w.uint(3), w.eol(), w.ch('5'), w.int32(-2), w.uint(1), w.eol(), bseg(w)),
+        'bound': lambda w: (w.ch('b'), w.eol(), w.ch('9')),
+        'expectn': lambda w: (w.ch('k'), w.uint(5), w.eol()),
+        'coloff': lambda w: (w.ch('k'), w.uint(2), w.eol(), w.uint(5), w.eol(), w.uint(3), w.eol()),
+        'manyinit': lambda w: (w.ch('x'), w.uint(9), w.eol()),
+        'manyinitd': lambda w: (w.ch('d'), w.uint(3), w.eol()),
+        'functype': lambda w: (w.ch('F'), w.uint(0), w.uint(5), w.int32(1), w.name(b'f'), w.eol()),
+        'sufkind': lambda w: (w.ch('S'), w.uint(8), w.uint(1), w.name(b'a'), w.eol()),
+        'dupb': lambda w: (bseg(w), bseg(w)),
+        'nob': lambda w: (C(w), num(w)),
+        'segment': lambda w: (w.ch('Z'),),
+        'segment0': lambda w: (w.raw(b'\x00x'),),
+        'ok': lambda w: (C(w), num(w), bseg(w)),
+        'eof1': lambda w: (C(w), w.ch('n')),
+        'eof2': lambda w: (w.ch('C'),),
+        'uintneg': lambda w: (w.ch('C'), w.uint(-1), w.eol()),
+    }
+    for mode in ('text', 'bin', 'binswap'):
+        for name, body in bodies.items():
+            yield mode, build(mode, base, body), 'errclass-' + name
+        # unsupported / unknown arithmetic kinds in a binary header are text-level
+    hdr = _header(False, False, **base)
+    text_only = {
+        'format': b'x', 'format-empty': b'', 'manyopts': b'g10\n', 'newline-eof': b'g3 1 1 0', 'uint': b'g3 1 1 0\n x\n',
+        'toobig': hdr + b'C99999999999\n', 'toobig-wrap': hdr + b'C4294967296\n', 'wrap-accepted': hdr + b'C5000000000\n',
+        'int': hdr + b'F0 0 x f\n', 'int-toobig': hdr + b'F0 0 2147483648 f\n', 'int-min': hdr + b'F0 0 -2147483648 f\nb\n3\n3\n3\n',
+        'int-plus': hdr + b'F0 0 +2 f\nC0\ns+5\nb\n3\n3\n3\n', 'long-plus': hdr + b'C0\nl+7\nb\n3\n3\n3\n',
+        'short-big': hdr + b'C0\ns32768\n', 'short-min': hdr + b'C0\ns-32768\nb\n3\n3\n3\n', 'short-wrap': hdr + b'C0\ns65536\n',
+        'double': hdr + b'C0\nnx\n', 'double-eol': hdr + b'C0\nn\n', 'colon': hdr + b'C0\no%d\n2\nh3abc\n' % S['NUMBEROF_SYM'][0],
+        'eofstr': hdr + b'C0\no%d\n2\nh99:abc' % S['NUMBEROF_SYM'][0], 'strnl': hdr + b'C0\no%d\n2\nh3:abcd\n' % S['NUMBEROF_SYM'][0],
+        'str-multiline': hdr + b'C0\no%d\n2\nh5:a\nb\nc\nn1\nb\n3\n3\n3\n' % S['NUMBEROF_SYM'][0],
+        'str-multiline-err': hdr + b'C0\no%d\n2\nh5:a\nb\ncX\n' % S['NUMBEROF_SYM'][0],
+        'name': hdr + b'F0 0 1\n', 'name-eof': hdr + b'F0 0 1 ', 'prevline': hdr + b'L0\no%d\nn1\no%d\n' % (T.lcount[0], S['SUM'][0]),
+        'arith': b'g3 1 1 0\n 1 0 0\n 0 0\n 0 0\n 0 0 0\n 0 0 9 1\n',
+        'ioverflow-ce': b'g3 1 1 0\n 2147483647 0 0\n 0 0\n 0 0\n 0 0 0\n 0 0 0 1\n 0 0 0 0 0\n 0 0\n 0 0\n 1 0 0 0 0\n',
+        'unsarith0': b'b3 1 1 0\n 0 0 0\n 0 0\n 0 0\n 0 0 0\n 0 0 0 1\n 0 0 0 0 0\n 0 0\n 0 0\n 0 0 0 0 0\nb',
+        'unsarith5': b'b3 1 1 0\n 0 0 0\n 0 0\n 0 0\n 0 0 0\n 0 0 5 1\n 0 0 0 0 0\n 0 0\n 0 0\n 0 0 0 0 0\nb',
+        'crlf': hdr.replace(b'\n', b'\r\n') + b'C0\r\nn1\r\nb\r\n3\r\n3\r\n3\r\n',
+        'highbytes': hdr + b'C0\n\xff\n', 'vtab': hdr + b'C0\x0b\x0c\nn\x0b1\nb\n3\n3\n3\n',
+    }
+    for name, d in text_only.items():
+        yield 'text', d, 'errclass-' + name
+
+
+def builder_header_family():
+    """small headers whose variable-class counts are inconsistent with num_vars (NLProblemBuilder::AddVariables:
+    class-size checks, MP_ASSERT_ALWAYS on the block sums, negative block sizes) - for the mp::Problem runs"""
+    vals = [0, 1, 2, 3, 5]
+    import itertools
+    k = 0
+    for nv in (0, 2, 3):
+        for a, b, c in itertools.product(vals, vals, [0, 1, 3]):
+            for d in ((0, 0, 0, 0, 0), (1, 1, 0, 0, 0), (0, 2, 1, 0, 0), (0, 0, 1, 1, 1), (2, 2, 2, 2, 2), (0, 0, 0, 3, 0)):
+                k += 1
+                if k % 3:
+                    continue
+                lines = ['g3 1 1 0', ' %d 1 1 0 0 0' % nv, ' 0 0', ' 0 0', ' %d %d %d' % (a, b, c), ' 0 0 0 1',
+                         ' %d %d %d %d %d' % d, ' 0 0', ' 0 0', ' 0 0 0 0 0', 'b'] + ['3'] * nv
+                yield 'text', ('\n'.join(lines) + '\n').encode(), 'builder-header'
